@@ -156,6 +156,9 @@ use std::{
 pub struct StreamState {
     queue: VecDeque<u32>,
     closed: bool,
+    /// `None` has been returned: like `stream::unfold` and most hand-written streams this one
+    /// is not fused - polling it again is a bug of the caller and panics
+    ended: bool,
     waker: Option<Waker>,
     pub yielded: u32,
 }
@@ -166,14 +169,14 @@ pub struct HStream(pub Arc<Mutex<StreamState>>);
 
 impl HStream {
     pub fn feed(&self, id: u32) {
-        let mut s = self.0.lock().unwrap();
+        let mut s = self.0.lock().unwrap_or_else(std::sync::PoisonError::into_inner);
         s.queue.push_back(id);
         if let Some(w) = s.waker.take() {
             w.wake();
         }
     }
     pub fn close(&self) {
-        let mut s = self.0.lock().unwrap();
+        let mut s = self.0.lock().unwrap_or_else(std::sync::PoisonError::into_inner);
         s.closed = true;
         if let Some(w) = s.waker.take() {
             w.wake();
@@ -184,11 +187,13 @@ impl HStream {
 impl futures::Stream for HStream {
     type Item = crate::world::Item;
     fn poll_next(self: std::pin::Pin<&mut Self>, cx: &mut TaskCx<'_>) -> Poll<Option<Self::Item>> {
-        let mut s = self.0.lock().unwrap();
+        let mut s = self.0.lock().unwrap_or_else(std::sync::PoisonError::into_inner);
+        assert!(!s.ended, "harness stream polled again after it returned None (streams need not be fused)");
         if let Some(x) = s.queue.pop_front() {
             s.yielded += 1;
             Poll::Ready(Some(crate::world::Item(x)))
         } else if s.closed {
+            s.ended = true;
             Poll::Ready(None)
         } else {
             s.waker = Some(cx.waker().clone());
